@@ -1,4 +1,7 @@
 // DESIGN-PHASE PROTOTYPE (round 0). Not part of the checking machinery; kept as evidence for DESIGN.md.
+// parse_dlt_with_storage_header and helpers pasted verbatim from /repo/src/dlt/mod.rs (from_*_bytes, Vec::from -> vx_* wrappers; DltMessage reduced to 4 fields).
+// Result: the real parser equals the total oracle spec_parse_storage (Msg/Invalid/NotEnough, length, payload bytes). Run: verus c01_parse_storage_equals_oracle.rs
+// DESIGN-PHASE PROTOTYPE (round 0). Not part of the checking machinery; kept as evidence for DESIGN.md.
 // Function bodies were pasted by hand from /repo for feasibility only; the real pipeline extracts them mechanically.
 // Run: verus c01_parse_storage_verbatim_partial.rs
 use vstd::prelude::*;
@@ -19,6 +22,8 @@ pub fn vx_u32_from_le_bytes(b: [u8;4]) -> (r: u32) ensures r == le32(b) { u32::f
 #[verifier::external_body]
 pub fn vx_u16_from_be_bytes(b: [u8;2]) -> (r: u16) ensures r == ((b[0] as u16) << 8 | (b[1] as u16)) { u16::from_be_bytes(b) }
 
+#[verifier::external_body]
+pub fn vx_vec_from_slice(s: &[u8]) -> (r: Vec<u8>) ensures r@ == s@ { Vec::from(s) }
 pub const US_PER_SEC: u64 = 1_000_000;
 
 #[derive(Clone, Copy)]
@@ -47,11 +52,14 @@ pub const DLT_STORAGE_HEADER_PATTERN: u32 = 0x01544c44; // DLT\01
 pub const DLT_STORAGE_HEADER_SIZE: usize = 16; // DLT\0x1 + secs, micros, ecu
 
 impl DltStorageHeader {
-    fn from_buf(buf: &[u8]) -> Option<DltStorageHeader> {
+    fn from_buf(buf: &[u8]) -> (r: Option<DltStorageHeader>)
+        ensures r is Some <==> (buf@.len() >= 16 && spec_is_sh_pat(buf@, 0)),
+    {
         if buf.len() < 16 {
             return None;
         }
         let pat = vx_u32_from_le_bytes([buf[0], buf[1], buf[2], buf[3]]);
+        proof { lemma_le32_pat(buf[0], buf[1], buf[2], buf[3]); }
         if pat != DLT_STORAGE_HEADER_PATTERN {
             return None;
         }
@@ -124,27 +132,42 @@ impl DltStandardHeader {
         length
     }
     #[inline(always)]
-    pub fn has_ext_hdr(&self) -> bool {
+    pub fn has_ext_hdr(&self) -> (r: bool)
+        ensures r == (self.htyp & 1 != 0)
+    {
+        proof { assert((1u8 << 1) == 2u8 && (1u8 << 2) == 4u8 && (1u8 << 3) == 8u8 && (1u8 << 4) == 16u8) by(bit_vector); let h = self.htyp; assert(((h & 1) > 0) == (h & 1 != 0)) by(bit_vector); }
         (self.htyp & DLT_STD_HDR_HAS_EXT_HDR) > 0
     }
 
     #[inline(always)]
-    pub fn is_big_endian(&self) -> bool {
+    pub fn is_big_endian(&self) -> (r: bool)
+        ensures r == (self.htyp & 2 != 0)
+    {
+        proof { assert((1u8 << 1) == 2u8 && (1u8 << 2) == 4u8 && (1u8 << 3) == 8u8 && (1u8 << 4) == 16u8) by(bit_vector); let h = self.htyp; assert(((h & 2) > 0) == (h & 2 != 0)) by(bit_vector); }
         (self.htyp & DLT_STD_HDR_BIG_ENDIAN) > 0
     }
 
     #[inline(always)]
-    pub fn has_ecu_id(&self) -> bool {
+    pub fn has_ecu_id(&self) -> (r: bool)
+        ensures r == (self.htyp & 4 != 0)
+    {
+        proof { assert((1u8 << 1) == 2u8 && (1u8 << 2) == 4u8 && (1u8 << 3) == 8u8 && (1u8 << 4) == 16u8) by(bit_vector); let h = self.htyp; assert(((h & 4) > 0) == (h & 4 != 0)) by(bit_vector); }
         (self.htyp & DLT_STD_HDR_HAS_ECU_ID) > 0
     }
 
     #[inline(always)]
-    pub fn has_session_id(&self) -> bool {
+    pub fn has_session_id(&self) -> (r: bool)
+        ensures r == (self.htyp & 8 != 0)
+    {
+        proof { assert((1u8 << 1) == 2u8 && (1u8 << 2) == 4u8 && (1u8 << 3) == 8u8 && (1u8 << 4) == 16u8) by(bit_vector); let h = self.htyp; assert(((h & 8) > 0) == (h & 8 != 0)) by(bit_vector); }
         (self.htyp & DLT_STD_HDR_HAS_SESSION_ID) > 0
     }
 
     #[inline(always)]
-    pub fn has_timestamp(&self) -> bool {
+    pub fn has_timestamp(&self) -> (r: bool)
+        ensures r == (self.htyp & 16 != 0)
+    {
+        proof { assert((1u8 << 1) == 2u8 && (1u8 << 2) == 4u8 && (1u8 << 3) == 8u8 && (1u8 << 4) == 16u8) by(bit_vector); let h = self.htyp; assert(((h & 16) > 0) == (h & 16 != 0)) by(bit_vector); }
         (self.htyp & DLT_STD_HDR_HAS_TIMESTAMP) > 0
     }
 }
@@ -169,7 +192,9 @@ pub struct Error {
 }
 
 impl Error {
-    pub fn new(kind: ErrorKind) -> Error {
+    pub fn new(kind: ErrorKind) -> (r: Error)
+        ensures r.kind == kind
+    {
         Error { kind }
     }
 
@@ -185,6 +210,28 @@ pub enum ErrorKind {
 }
 
 pub type DltMessageIndexType = u32;
+pub proof fn lemma_pat_suffix(d: Seq<u8>, i: int)
+    requires 0 <= i <= d.len()
+    ensures spec_is_sh_pat(d.subrange(i, d.len() as int), 0) == spec_is_sh_pat(d, i)
+{}
+pub enum SParse { Msg(int, int), Invalid, NotEnough }
+pub open spec fn be16(a: u8, b: u8) -> int { ((a as u16) << 8 | (b as u16)) as int }
+pub open spec fn inner_marker(d: Seq<u8>, n: int) -> bool { exists|i: int| 5 <= i < n && #[trigger] spec_is_sh_pat(d, i) }
+pub open spec fn spec_parse_storage(d: Seq<u8>) -> SParse {
+    if d.len() < 20 { SParse::NotEnough }
+    else if !spec_is_sh_pat(d, 0) { SParse::Invalid }
+    else {
+        let l = be16(d[18], d[19]); let h = spec_hdr_size(d[16]) as int;
+        if l < h { SParse::Invalid }
+        else if d.len() - 16 < l { SParse::NotEnough }
+        else {
+            let n = 16 + l;
+            if d.len() - n >= 4 && !spec_is_sh_pat(d, n) && inner_marker(d, n) { SParse::Invalid }
+            else { SParse::Msg(n, 16 + h) }
+        }
+    }
+}
+
 pub open spec fn spec_is_sh_pat(s: Seq<u8>, i: int) -> bool {
     i + 4 <= s.len() && s[i] == 0x44 && s[i+1] == 0x4c && s[i+2] == 0x54 && s[i+3] == 0x01
 }
@@ -201,16 +248,11 @@ pub fn parse_dlt_with_storage_header(
     data: &[u8],
 ) -> (res: Result<(usize, DltMessage), Error>)
     ensures
-        match res {
-            Ok((n, msg)) => {
-                &&& data.len() >= 20
-                &&& spec_is_sh_pat(data@, 0)
-                &&& n == 16 + ((data@[18] as u16) << 8 | (data@[19] as u16))
-                &&& n <= data.len()
-                &&& msg.index == index
-                &&& msg.payload@ == data@.subrange(16 + spec_hdr_size(data@[16]) as int, n as int)
-            },
-            Err(e) => true,
+        match spec_parse_storage(data@) {
+            SParse::Msg(n, pay_off) => res is Ok && res->Ok_0.0 == n && res->Ok_0.1.index == index
+                && res->Ok_0.1.payload@ == data@.subrange(pay_off, n),
+            SParse::Invalid => res is Err && res->Err_0.kind is InvalidData,
+            SParse::NotEnough => res is Err && res->Err_0.kind is NotEnoughData,
         }
 {
     let mut remaining = data.len();
@@ -231,12 +273,17 @@ pub fn parse_dlt_with_storage_header(
                         remaining -= payload_size as usize;
                         let to_consume = data.len() - remaining;
 
+                        proof { lemma_pat_suffix(data@, to_consume as int); }
                         if remaining >= 4 && !is_storage_header_pattern(&data[to_consume..]) {
                             // the new msg would be from [0..to_consume]
                             // is a 2nd storage header within data[5]..data[to_consume+3]?
                             for i in 5..to_consume
                                 invariant to_consume <= data.len(),
+                                    forall|j: int| 5 <= j < i ==> !spec_is_sh_pat(data@, j),
+                                    spec_parse_storage(data@) == (if inner_marker(data@, to_consume as int) { SParse::Invalid } else { SParse::Msg(to_consume as int, payload_offset as int) }),
+                                    payload_offset + payload_size == to_consume, payload_offset <= to_consume,
                             {
+                                proof { lemma_pat_suffix(data@, i as int); }
                                 if is_storage_header_pattern(&data[i..]) {
                                     // yes, lets use that.
                                     // we simply return an error here and let the usual skip logic apply
@@ -247,10 +294,15 @@ pub fn parse_dlt_with_storage_header(
                             }
                         }
 
-                        let payload = Vec::from(
+                        let payload = vx_vec_from_slice(
                             &data[payload_offset..payload_offset + payload_size as usize],
                         );
                         let msg = DltMessage{index, reception_time_us: sh.reception_time_us(), ecu: sh.ecu, payload};
+                        proof {
+                            assert(stdh.len as int == be16(data@[18], data@[19]));
+                            assert(std_ext_header_size as int == spec_hdr_size(data@[16]) as int);
+                            assert(!(data@.len() - to_consume >= 4 && !spec_is_sh_pat(data@, to_consume as int) && inner_marker(data@, to_consume as int)));
+                        }
                         Ok((to_consume, msg))
                     } else {
                         Err(Error::new(ErrorKind::NotEnoughData(
